@@ -1,6 +1,6 @@
 """Shared machinery of the checks: building/running the symx harness, extracting observations from a
 dump, posing obligations to the solver, writing evidence."""
-import json, os, subprocess, sys, time, hashlib, tempfile, concurrent.futures
+import json, os, re, subprocess, sys, time, hashlib, tempfile, concurrent.futures
 
 from dag import Norm, Terms, load
 from solver import Session
@@ -414,6 +414,15 @@ def finish(ctx, assumptions, functions, bounds, outside, rule):
     return code
 
 
+_H0 = re.compile(r'([0-9a-f]{8})01' + '00' * 19 + '53594d58217ec3a5')
+_H1 = re.compile('00' * 12 + r'([0-9a-f]{8})01' + '00' * 7 + '911c770bee425af3')
+
+
+def _canon_handles(text):
+    """the two handle encodings of one blob id (symcore::enc32) are the same object: rewrite both to <blob:id>"""
+    return _H1.sub(r'<blob:\1>', _H0.sub(r'<blob:\1>', text))
+
+
 def parallel_cases(ctx, cases, analyse, workers=14, enc=0):
     """run symx on every case config and analyse each dump (own solver session per worker thread)"""
     def work(case):
@@ -433,7 +442,7 @@ def parallel_cases(ctx, cases, analyse, workers=14, enc=0):
             # assumption A3 (opaque 32-byte elements), checked: the same scenario under the second handle encoding must take the
             # same control flow and give the same results
             d2 = run_symx(case['cfg'], ctx.seed, 1 - enc)
-            if json.dumps(d2['out'], sort_keys=True) != json.dumps(d['out'], sort_keys=True):
+            if _canon_handles(json.dumps(d2['out'], sort_keys=True)) != _canon_handles(json.dumps(d['out'], sort_keys=True)):
                 ctx.inconclusive.append('A3 violated: results depend on the byte encoding of symbolic elements for %s' % json.dumps(case['cfg'])[:200])
             with ctx.lock:
                 ctx.enc_compared += 1
